@@ -181,7 +181,8 @@ def run(tier: str) -> Run:
             return super().call_method(interp, recv, name, args, kwargs, node)
 
     bmod = repo.module('beamline_components')
-    accessors = [(n, f) for n, f in sorted(bmod.functions.items()) if not n.startswith('_')]
+    # the accessors: the public functions of the module that take the data as `da`
+    accessors = [(n, f) for n, f in sorted(bmod.functions.items()) if not n.startswith('_') and [a.arg for a in f.node.args.args][:1] == ['da']]
     if len(accessors) < 6:
         raise AnalysisError(f'beamline_components has only {len(accessors)} public accessors')
     for name, afi in accessors:
